@@ -233,18 +233,17 @@ Proof.
   - exact (window_changes_witness zc k H).
 Qed.
 
-Definition copying_kinds : list dkind :=
-  [KBytesBody; KPlainString; KPlainBytes; KFormEscaped; KJson; KXml; KProtobuf; KThrift].
-
+(* the code as it is copies in every case *)
 Lemma code_copying_kinds_hold_lemma : forall evs i a m,
-  nth_error evs i = Some (a, m) -> In (rm_kind m) copying_kinds ->
+  nth_error evs i = Some (a, m) ->
   nth_error (views (rrun code_zc evs)) i = Some (rm_body m).
 Proof.
-  intros evs i a m H K. apply (held_copy_stable_lemma code_zc evs i a m H).
-  assert (E : code_zc (rm_kind m) = false).
-  { cbn in K. repeat (destruct K as [<-|K]; [reflexivity|]). destruct K. }
-  now rewrite E.
+  intros evs i a m H. apply (held_copy_stable_lemma code_zc evs i a m H). reflexivity.
 Qed.
+
+Lemma code_all_views_lemma : forall evs,
+  views (rrun code_zc evs) = map (fun ev => rm_body (snd ev)) evs.
+Proof. intro evs. apply all_copy_views_lemma. reflexivity. Qed.
 
 Lemma fresh_pipe_protects_lemma : forall zc evs i a m,
   nth_error evs i = Some (a, m) -> rm_fresh m = true ->
@@ -261,11 +260,11 @@ Lemma string_zc_leaks_lemma :
     nth_error (views (rrun string_zc evs)) 0 = Some (rm_body m2).
 Proof. exact (zero_copy_leaks_lemma string_zc KPlainString eq_refl). Qed.
 
-Lemma code_zc_leaks_lemma : forall k, In k [KPlainNamedString; KPlainNamedBytes; KFormValue] ->
+Lemma code_zc_prefix_leaks_lemma : forall k, In k [KPlainNamedString; KPlainNamedBytes; KFormValue] ->
   exists evs a m a2 m2,
     nth_error evs 0 = Some (a, m) /\ nth_error evs 1 = Some (a2, m2) /\
     rm_kind m = k /\ rm_fresh m = false /\ rm_body m <> rm_body m2 /\
-    nth_error (views (rrun code_zc evs)) 0 = Some (rm_body m2).
+    nth_error (views (rrun code_zc_prefix evs)) 0 = Some (rm_body m2).
 Proof.
   intros k K. apply zero_copy_leaks_lemma.
   cbn in K. repeat (destruct K as [<-|K]; [reflexivity|]). destruct K.
